@@ -164,6 +164,10 @@ func RunSequence(c *vlib.Ctx, r *vlib.Rand, cfg RunCfg) {
 		prev := make([]vlib.Snapshot, len(rs.Actors))
 		copy(prev, rs.Snaps)
 		rs.Prev = prev
+		if op.Pre > 0 && op.Kind != KAdvance {
+			clock.Advance(op.Pre)
+			c.Count("ops_with_unobserved_clock_step", 1)
+		}
 		nowBefore := clock.NowNS()
 		for i, a := range rs.Actors {
 			if op.Kind == KAdvance && i > 0 {
